@@ -105,28 +105,36 @@ func (l localFiles) RegisterFile(fd protoreflect.FileDescriptor) error { return 
 // protodesc (two separate registries).
 func buildBoth(c *core.Ctx, s *gen.Schema, fpPrefix string) (bfds, pfds []protoreflect.FileDescriptor, ok bool) {
 	breg, preg := &protoregistry.Files{}, &protoregistry.Files{}
+	ok = true
 	for _, p := range s.Files {
 		raw, err := proto.MarshalOptions{Deterministic: true}.Marshal(p)
 		if err != nil {
 			return nil, nil, false
 		}
-		pfd, err := protodesc.NewFile(p, fallbackResolver{preg})
-		if err != nil {
-			c.Count("gen_rejected_by_protodesc")
-			c.Count("gen_rejected:" + c34ErrClass(err))
-			return nil, nil, false
-		}
-		preg.RegisterFile(pfd)
+		// the builder does not validate: its descriptor exists whatever protodesc says
 		var bfd protoreflect.FileDescriptor
 		if !c.NoPanic(fpPrefix+":builder-panic", map[string]any{"raw": core.Hex(raw)}, func() {
 			bfd = filedesc.Builder{RawDescriptor: raw, FileRegistry: localFiles{breg}}.Build().File
 		}) {
-			return nil, nil, false
+			return bfds, pfds, false
 		}
 		bfds = append(bfds, bfd)
+		if !ok {
+			continue
+		}
+		pfd, err := protodesc.NewFile(p, fallbackResolver{preg})
+		if err != nil {
+			// the generator is valid by construction (C34 demands acceptance of its output):
+			// a rejection is reported, and the builder's descriptors are still returned
+			c.Count("gen_rejected_by_protodesc")
+			c.Violation(fpPrefix+":valid-schema-rejected-by-protodesc:"+c34ErrClass(err), map[string]any{"err": errStr(err), "proto": core.Hex(raw), "text": clip(p.String(), 3000)})
+			ok = false
+			continue
+		}
+		preg.RegisterFile(pfd)
 		pfds = append(pfds, pfd)
 	}
-	return bfds, pfds, true
+	return bfds, pfds, ok
 }
 
 func runC37(c *core.Ctx, b core.Batch) {
